@@ -21,8 +21,9 @@ type Prop struct{}
 func (Prop) ID() string    { return "C06" }
 func (Prop) Level() string { return "exploration" }
 func (Prop) Configs(tier string) []string {
-	// sm2ec / bigmod / P256OrdInverse dispatch: ADX+BMI2 asm, plain asm, fiat-crypto generic.
-	return []string{"c-default", "c-nobmi2", "c-purego"}
+	// sm2ec / bigmod / P256OrdInverse dispatch: ADX+BMI2 asm with AVX2 table select and point addition tails, the same
+	// without AVX2 (SSE tails), plain asm, fiat-crypto generic.
+	return []string{"c-default", "c-noavx2", "c-nobmi2", "c-purego"}
 }
 
 func (Prop) SelfTest() error {
